@@ -53,6 +53,8 @@ pub fn build(draws: &[u16], tier: Tier) -> Case {
     }
     c.cfg.max_branches = 5000;
     c.cfg.max_permutations = None;
+    // a quarter of the cases run with a branch limit just above the longest decision path
+    c.x.n = Some(if s.chance(1, 4) { 1 + s.pick(3) as i64 } else { 0 });
     let _ = tier;
     c
 }
@@ -77,10 +79,24 @@ pub fn eval(case: &Case) -> Verdict {
     let mut probe_cfg = case.cfg.clone();
     probe_cfg.max_permutations = Some(700);
     probe_cfg.checkpoint_interval = 1;
-    let probe = crate::interp::collect(p, &probe_cfg, false);
+    let need: std::sync::Arc<std::sync::Mutex<usize>> = std::sync::Arc::new(std::sync::Mutex::new(0));
+    let n2 = need.clone();
+    let hook = Box::new(move |ph: loom::verif::Phase, _i: usize, path: &[loom::verif::Branch]| {
+        if ph == loom::verif::Phase::IterationEnd {
+            let mut m = n2.lock().unwrap();
+            *m = (*m).max(path.len());
+        }
+    });
+    let probe = crate::interp::collect_with(p, &probe_cfg, crate::interp::RunOpts { hook: Some(hook), ..Default::default() }, false);
     if probe.report.capped {
         return Verdict::skip("too many iterations");
     }
+    let mut case = case.clone();
+    let tight = case.x.n.unwrap_or(0);
+    if tight > 0 && probe.report.panic.is_none() {
+        case.cfg.max_branches = *need.lock().unwrap() + tight as usize;
+    }
+    let case = &case;
     let base = RunSpec { prog: p.clone(), cfg: case.cfg.clone(), ..Default::default() };
     // (a) determinism across fresh processes
     let o1 = match one(base.clone()) {
@@ -97,6 +113,9 @@ pub fn eval(case: &Case) -> Verdict {
     v.label(&format!("interval{}", c));
     if case.cfg.preemption_bound.is_some() {
         v.label("preemption_bound");
+    }
+    if case.cfg.max_branches < 5000 {
+        v.label("tight_max_branches");
     }
     if o1 != o2 {
         let at = o1.records.iter().zip(o2.records.iter()).position(|(a, b)| a != b);
